@@ -832,8 +832,7 @@ fn validate_reference(grammar: &Grammar, nodes: usize, len: usize) -> Result<(u6
         script.push_str(&format!("rb'{}',", p.to_python()));
     }
     script.push_str("]\nout=[]\nfor p in P:\n    c=re.compile(p)\n    out.append(''.join('1' if c.fullmatch(w) else '0' for w in W))\nsys.stdout.write('\\n'.join(out))\n");
-    let dir = std::env::var("SNT_TMP").unwrap_or_else(|_| "/tmp".into());
-    let _ = std::fs::create_dir_all(&dir);
+    let dir = crate::engine::workers::tmp_dir();
     let path = format!("{dir}/c15_ref_{}.py", std::process::id());
     std::fs::write(&path, script).map_err(|e| e.to_string())?;
     let out = std::process::Command::new("python3").arg(&path).output();
